@@ -20,6 +20,7 @@ def _time_hooks(r, created, EPOCH, LOCAL):
             return [(st, E.VInt(LOCAL))]
         raise E.ToolLimit('calendar.timegm of an unexpected value')
     r.ex.hooks[('ext', 'calendar.timegm')] = timegm
+    scn.local_zone_reading(r.ex)
 
 
 def fingerprint():
